@@ -262,7 +262,11 @@ Definition expected_cb (p : obs) (st : step) (o : obs) : list cbev :=
     4 also: a batch started before the height at which the next batch of the context was scheduled
     (pause / start must neither move nor duplicate it); 8 a queue entry disagrees with the height
     marker of its context (two entries for one context), or a running batch has no expiry marker
-    (the model-side statement is [QInv], proved for every history) *)
+    (the model-side statement is [QInv], proved for every history); 7 also: a response callback fired
+    twice for one (context, batch), or has not fired for the closed current batch of a stored
+    module-owned context ([callback_exactly_once_per_batch]); 9 an active request whose context is not
+    stored, or whose batch is not the running current batch of its context
+    ([active_requests_belong_to_the_running_batch]) *)
 
 (** per context: the height at which the expiry handler scheduled its next batch (start of the
     last batch + frequency), recorded when the batch expired with the context RUNNING, repeated,
@@ -277,7 +281,11 @@ Definition is_update_or_kill (st : step) : option ctxid :=
   | _ => None
   end.
 
-Definition holds_C08 (seen : list reqid) (tr : track) (sc : sched) (p : obs) (st : step) (o : obs) : Z :=
+(** the (context, batch) pairs of the response callbacks recorded in a step *)
+Definition cb_keys (l : list cbev) : list (ctxid * Z) :=
+  map (fun e : cbev => let '(_, i, b, _, _) := e in (i, b)) (filter (fun e : cbev => let '(k, _, _, _, _) := e in k =? 0) l).
+
+Definition holds_C08 (seen : list reqid) (fired : list (ctxid * Z)) (tr : track) (sc : sched) (p : obs) (st : step) (o : obs) : Z :=
   let eb := is_endblock st in
   let h := o_height p in
   first_fail (
@@ -355,7 +363,19 @@ Definition holds_C08 (seen : list reqid) (tr : track) (sc : sched) (p : obs) (st
               || match get id (o_ctxs p) with Some x => (negb (t_mod x)) || (t_cons x =? cn) | None => false end, 6)]
         | None => []
         end)
-    ++ [ (same_set (expected_cb p st o) (o_cb o), 7) ]).
+    ++ [ (same_set (expected_cb p st o) (o_cb o), 7) ]
+    (* over the whole history: a response callback never fires twice for one (context, batch) ... *)
+    ++ map (fun k => (negb (existsb (eqb k) fired), 7)) (cb_keys (o_cb o))
+    (* ... and has fired for the current batch of every stored module-owned context whose batch is closed *)
+    ++ map (fun e => (negb (t_mod (snd e)) || t_brun (snd e) || (t_batch (snd e) <? 1)
+                      || existsb (eqb (fst e, t_batch (snd e))) (fired ++ cb_keys (o_cb o)), 7)) (o_ctxs o)
+    (* every active request belongs to the running, current batch of a stored context (so a batch is
+       never closed — by a pause, an update, anything — while one of its requests awaits an outcome) *)
+    ++ map (fun e => (negb (r_active (snd e))
+                      || match get (rid_ctx (fst e)) (o_ctxs o) with
+                         | Some x => t_brun x && (t_batch x =? rid_batch (fst e))
+                         | None => false
+                         end, 9)) (o_reqs o)).
 
 Definition update_track (tr : track) (p : obs) (st : step) (o : obs) : track :=
   let h := o_height p in
@@ -399,7 +419,7 @@ Definition update_sched (sc : sched) (tr : track) (p : obs) (st : step) (o : obs
 
 Definition ledger_of (o : obs) : ledger := fold_left (fun l e => set (fst e) (snd e) l) (o_bals o) [].
 
-Fixpoint check_from (c : config) (s : state) (p : obs) (seen : list reqid) (tr : track) (sc : sched)
+Fixpoint check_from (c : config) (s : state) (p : obs) (seen : list reqid) (fired : list (ctxid * Z)) (tr : track) (sc : sched)
     (l : list (step * ob)) (i : Z) (corr p7 c7 p8 c8 : Z) : Z * Z * Z * Z * Z :=
   match l with
   | [] => (corr, p7, c7, p8, c8)
@@ -409,17 +429,17 @@ Fixpoint check_from (c : config) (s : state) (p : obs) (seen : list reqid) (tr :
       let s' := match r with Okk s1 => s1 | _ => s end in
       let corr' := if (corr <? 0) && negb (corr_step s st r s' o) then i else corr in
       let k7 := holds_C07 c p st o in
-      let k8 := holds_C08 seen tr sc p st o in
+      let k8 := holds_C08 seen fired tr sc p st o in
       let '(p7', c7') := if (p7 <? 0) && negb (k7 =? 0) then (i, k7) else (p7, c7) in
       let '(p8', c8') := if (p8 <? 0) && negb (k8 =? 0) then (i, k8) else (p8, c8) in
-      check_from c s' o (seen ++ map fst (created_in p o)) (update_track tr p st o) (update_sched sc tr p st o) rest (i + 1) corr' p7' c7' p8' c8'
+      check_from c s' o (seen ++ map fst (created_in p o)) (fired ++ cb_keys (o_cb o)) (update_track tr p st o) (update_sched sc tr p st o) rest (i + 1) corr' p7' c7' p8' c8'
   end.
 
 Definition check_all (cs : case) : Z * Z * Z * Z * Z :=
   let '(c, o0, l) := cs in
   let s0 := init (o_height o0) (o_time o0) (ledger_of o0) in
   let corr0 := if corr_state s0 o0 then -1 else 0 in
-  check_from c s0 o0 (map fst (o_reqs o0)) [] [] l 1 corr0 (-1) 0 (-1) 0.
+  check_from c s0 o0 (map fst (o_reqs o0)) [] [] [] l 1 corr0 (-1) 0 (-1) 0.
 
 (** (first diverging step or -1, first step violating the property or -1, clause) *)
 Definition check_case_C07 (cs : case) : Z * Z * Z :=
